@@ -46,7 +46,14 @@ pub fn state_str<Y: Debug, R: Debug>(s: &CoroutineState<Y, R>) -> String {
                 format!("Suspend({y},{t})")
             }
         }
-        CoroutineState::Syscall(_, n, st) => format!("Syscall({n},{})", sys_state_str(st)),
+        CoroutineState::Syscall(y, n, st) => {
+            let y = format!("{y:?}");
+            if y == "()" {
+                format!("Syscall({n},{})", sys_state_str(st))
+            } else {
+                format!("Syscall({y},{n},{})", sys_state_str(st))
+            }
+        }
         CoroutineState::Cancelled => "Cancelled".into(),
         CoroutineState::Complete(r) => format!("Complete({r:?})"),
         CoroutineState::Error(m) => format!("Error({m})"),
